@@ -84,7 +84,9 @@ CHECKS = {
         technique="Coq proof (induction over hook lists) + vm_compute "
                   "correspondence of self-recorded traces + source-to-Coq "
                   "translation of the before/after hook loops of the request "
-                  "cycle with proved equality to the model"),
+                  "cycle and of the write-once endpoint slots of the request "
+                  "with proved equality to the model + generated census of "
+                  "the slot writers (policy theorem by vm_compute)"),
     "C04": dict(
         text="Theorems: status resolution = user handler for (s,method) with "
              "its result interpreted like an endpoint result, else built-in "
